@@ -6,13 +6,13 @@ Local Open Scope N_scope.
 
 (* ---------- association lists ---------- *)
 Lemma alookup_aupd_same {A} k (v : A) l :
-  alookup k (aupd k v l) = match alookup k l with Some _ => Some v | None => None end.
+  pl_alookup k (pl_aupd k v l) = match pl_alookup k l with Some _ => Some v | None => None end.
 Proof.
   induction l as [|[k' v'] l IH]; cbn; auto.
   destruct (k =? k') eqn:E; cbn; rewrite E; auto.
 Qed.
 
-Lemma alookup_aupd_other {A} k k' (v : A) l : k' <> k -> alookup k' (aupd k v l) = alookup k' l.
+Lemma alookup_aupd_other {A} k k' (v : A) l : k' <> k -> pl_alookup k' (pl_aupd k v l) = pl_alookup k' l.
 Proof.
   intros Hn. induction l as [|[k2 v2] l IH]; cbn; auto.
   destruct (k =? k2) eqn:E; cbn.
@@ -20,13 +20,13 @@ Proof.
   - destruct (k' =? k2); auto.
 Qed.
 
-Lemma alookup_aremove_same {A} k (l : list (N * A)) : alookup k (aremove k l) = None.
+Lemma alookup_aremove_same {A} k (l : list (N * A)) : pl_alookup k (pl_aremove k l) = None.
 Proof.
   induction l as [|[k' v'] l IH]; cbn; auto.
   destruct (k =? k') eqn:E; cbn; auto. rewrite E. auto.
 Qed.
 
-Lemma alookup_aremove_other {A} k k' (l : list (N * A)) : k' <> k -> alookup k' (aremove k l) = alookup k' l.
+Lemma alookup_aremove_other {A} k k' (l : list (N * A)) : k' <> k -> pl_alookup k' (pl_aremove k l) = pl_alookup k' l.
 Proof.
   intros Hn. induction l as [|[k2 v2] l IH]; cbn; auto.
   destruct (k =? k2) eqn:E; cbn.
@@ -45,8 +45,8 @@ Proof.
   - eauto.
 Qed.
 
-Lemma in_mid_nodup (l : list pmsg) a b :
-  NoDup (map mid l) -> In a l -> In b l -> mid a = mid b -> a = b.
+Lemma in_mid_nodup (l : list pl_msg) a b :
+  NoDup (map pl_mid l) -> In a l -> In b l -> pl_mid a = pl_mid b -> a = b.
 Proof.
   induction l as [|x l IH]; cbn; [tauto|].
   intros Hnd [H1|H1] [H2|H2] E; inversion Hnd; subst; auto.
@@ -56,28 +56,28 @@ Qed.
 
 (* ---------- thread table ---------- *)
 Lemma tget_tput_same t th' s :
-  tget (tput t th' s) t = match tget s t with Some _ => Some th' | None => None end.
-Proof. unfold tget, tput. cbn. apply alookup_aupd_same. Qed.
+  pl_tget (pl_tput t th' s) t = match pl_tget s t with Some _ => Some th' | None => None end.
+Proof. unfold pl_tget, pl_tput. cbn. apply alookup_aupd_same. Qed.
 
-Lemma tget_tput_other t t' th' s : t' <> t -> tget (tput t th' s) t' = tget s t'.
-Proof. unfold tget, tput. cbn. apply alookup_aupd_other. Qed.
+Lemma tget_tput_other t t' th' s : t' <> t -> pl_tget (pl_tput t th' s) t' = pl_tget s t'.
+Proof. unfold pl_tget, pl_tput. cbn. apply alookup_aupd_other. Qed.
 
 Lemma tget_tput_inv t t' th' s x :
-  tget (tput t th' s) t' = Some x ->
-  (t' = t /\ x = th' /\ exists th, tget s t = Some th) \/ (t' <> t /\ tget s t' = Some x).
+  pl_tget (pl_tput t th' s) t' = Some x ->
+  (t' = t /\ x = th' /\ exists th, pl_tget s t = Some th) \/ (t' <> t /\ pl_tget s t' = Some x).
 Proof.
   destruct (N.eq_dec t' t) as [->|Hn].
-  - rewrite tget_tput_same. destruct (tget s t) eqn:E; [|discriminate].
+  - rewrite tget_tput_same. destruct (pl_tget s t) eqn:E; [|discriminate].
     intros H. inversion H; subst. left. eauto.
   - rewrite tget_tput_other by auto. auto.
 Qed.
 
 (* ---------- the invariant ---------- *)
-Definition active (p : xpc) : Prop :=
-  match p with PAdded | PWaiting | PLeaving _ => True | _ => False end.
+Definition active (p : pl_pc) : Prop :=
+  match p with PlPAdded | PlPWaiting | PlPLeaving _ => True | _ => False end.
 
-Definition pc_result (p : xpc) : option presult :=
-  match p with PLeaving r | PEol r | PReturned r => Some r | _ => None end.
+Definition pc_result (p : pl_pc) : option pl_result :=
+  match p with PlPLeaving r | PlPEol r | PlPReturned r => Some r | _ => None end.
 
 (* newest first: the newest id is next-1, each older one is one less, the oldest is q0 *)
 Fixpoint alog_ok (q0 next : N) (l : list (N * N)) : Prop :=
@@ -86,34 +86,34 @@ Fixpoint alog_ok (q0 next : N) (l : list (N * N)) : Prop :=
   | (_, w) :: r => next = w + 1 /\ alog_ok q0 w r
   end.
 
-Definition thread_ok (s : pstate) (t : N) (th : pthread) : Prop :=
-  t < nthreads s /\
-  (forall w, twid th = Some w -> In (t, w) (alog s)) /\
-  (tpc th = PStart -> twid th = None) /\
-  (forall m, tchan th = Some m -> twid th = Some (mhid m) /\ In m (emitted s)) /\
-  (forall r, pc_result (tpc th) = Some (RMsg r) ->
-     exists w, twid th = Some w /\ In (with_id r w) (emitted s) /\ mhid r = cid th).
+Definition thread_ok (s : pl_state) (t : N) (th : pl_thread) : Prop :=
+  t < pl_nthreads s /\
+  (forall w, pl_twid th = Some w -> In (t, w) (pl_alog s)) /\
+  (pl_tpc th = PlPStart -> pl_twid th = None) /\
+  (forall m, pl_tchan th = Some m -> pl_twid th = Some (pl_mhid m) /\ In m (pl_emitted s)) /\
+  (forall r, pc_result (pl_tpc th) = Some (PlRMsg r) ->
+     exists w, pl_twid th = Some w /\ In (pl_with_id r w) (pl_emitted s) /\ pl_mhid r = pl_cid th).
 
-Definition rl_ok (s : pstate) (r : rloop) : Prop :=
+Definition rl_ok (s : pl_state) (r : pl_rloop) : Prop :=
   match r with
-  | RIdle => True
-  | RHold m => In m (emitted s)
-  | RSend m t => In m (emitted s) /\ exists th, tget s t = Some th /\ twid th = Some (mhid m)
+  | PlRIdle => True
+  | PlRHold m => In m (pl_emitted s)
+  | PlRSend m t => In m (pl_emitted s) /\ exists th, pl_tget s t = Some th /\ pl_twid th = Some (pl_mhid m)
   end.
 
-Definition queue_ok (s : pstate) (q : list (N * N)) : Prop :=
-  forall w t, alookup w q = Some t ->
-    exists th, tget s t = Some th /\ twid th = Some w /\ active (tpc th).
+Definition queue_ok (s : pl_state) (q : list (N * N)) : Prop :=
+  forall w t, pl_alookup w q = Some t ->
+    exists th, pl_tget s t = Some th /\ pl_twid th = Some w /\ active (pl_tpc th).
 
-Record Inv (q0 : N) (s : pstate) : Prop := {
-  inv_next : nextQid s <= 65536;
-  inv_alog : alog_ok q0 (nextQid s) (alog s);
-  inv_threads : forall t th, tget s t = Some th -> thread_ok s t th;
-  inv_log_wid : forall t w, In (t, w) (alog s) -> exists th, tget s t = Some th /\ twid th = Some w;
-  inv_queue : queue_ok s (queue s);
-  inv_rl : rl_ok s (rl s);
-  inv_mid : forall m, In m (emitted s) -> mid m < nemit s;
-  inv_mid_nodup : NoDup (map mid (emitted s))
+Record Inv (q0 : N) (s : pl_state) : Prop := {
+  inv_next : pl_nextQid s <= 65536;
+  inv_alog : alog_ok q0 (pl_nextQid s) (pl_alog s);
+  inv_threads : forall t th, pl_tget s t = Some th -> thread_ok s t th;
+  inv_log_wid : forall t w, In (t, w) (pl_alog s) -> exists th, pl_tget s t = Some th /\ pl_twid th = Some w;
+  inv_queue : queue_ok s (pl_queue s);
+  inv_rl : rl_ok s (pl_rl s);
+  inv_mid : forall m, In m (pl_emitted s) -> pl_mid m < pl_nemit s;
+  inv_mid_nodup : NoDup (map pl_mid (pl_emitted s))
 }.
 
 Lemma alog_ok_bounds q0 n l : alog_ok q0 n l -> q0 <= n /\ forall t w, In (t, w) l -> q0 <= w < n.
@@ -133,7 +133,7 @@ Proof.
 Qed.
 
 Lemma thread_ok_mono s s' t th :
-  nthreads s <= nthreads s' -> incl (alog s) (alog s') -> incl (emitted s) (emitted s') ->
+  pl_nthreads s <= pl_nthreads s' -> incl (pl_alog s) (pl_alog s') -> incl (pl_emitted s) (pl_emitted s') ->
   thread_ok s t th -> thread_ok s' t th.
 Proof.
   intros Hn Ha He (H1 & H2 & H3 & H4 & H5). repeat split; auto.
@@ -144,8 +144,8 @@ Proof.
 Qed.
 
 Lemma wid_inj q0 s t1 t2 th1 th2 w :
-  Inv q0 s -> tget s t1 = Some th1 -> tget s t2 = Some th2 ->
-  twid th1 = Some w -> twid th2 = Some w -> t1 = t2.
+  Inv q0 s -> pl_tget s t1 = Some th1 -> pl_tget s t2 = Some th2 ->
+  pl_twid th1 = Some w -> pl_twid th2 = Some w -> t1 = t2.
 Proof.
   intros I G1 G2 W1 W2.
   destruct (inv_threads _ _ I _ _ G1) as (_ & A1 & _).
@@ -154,33 +154,33 @@ Proof.
 Qed.
 
 (* ---------- generic preservation lemmas ---------- *)
-Lemma inv_init tcp q0 : q0 <= 65536 -> Inv q0 (pinit tcp q0).
+Lemma inv_init tcp q0 : q0 <= 65536 -> Inv q0 (pl_init tcp q0).
 Proof.
   intros H. constructor; cbn; auto; try tauto; try discriminate.
   constructor.
 Qed.
 
-Lemma inv_set_closed q0 b s : Inv q0 s -> Inv q0 (set_closed b s).
+Lemma inv_set_closed q0 b s : Inv q0 s -> Inv q0 (pl_set_closed b s).
 Proof. intros [A B C D E F G H]. constructor; auto. Qed.
 
-Lemma inv_set_reserved q0 v s : Inv q0 s -> Inv q0 (set_reserved v s).
+Lemma inv_set_reserved q0 v s : Inv q0 s -> Inv q0 (pl_set_reserved v s).
 Proof. intros [A B C D E F G H]. constructor; auto. Qed.
 
-Lemma inv_set_rl q0 r s : Inv q0 s -> rl_ok s r -> Inv q0 (set_rl r s).
+Lemma inv_set_rl q0 r s : Inv q0 s -> rl_ok s r -> Inv q0 (pl_set_rl r s).
 Proof.
   intros [A B C D E F G H] R. constructor; auto.
 Qed.
 
-Lemma inv_set_queue q0 q s : Inv q0 s -> queue_ok s q -> Inv q0 (set_queue q s).
+Lemma inv_set_queue q0 q s : Inv q0 s -> queue_ok s q -> Inv q0 (pl_set_queue q s).
 Proof.
   intros [A B C D E F G H] R. constructor; auto.
 Qed.
 
 (* replacing one thread's record, wire id unchanged *)
 Lemma inv_tput q0 s t th th' :
-  Inv q0 s -> tget s t = Some th -> twid th' = twid th -> thread_ok s t th' ->
-  (forall w, alookup w (queue s) = Some t -> active (tpc th')) ->
-  Inv q0 (tput t th' s).
+  Inv q0 s -> pl_tget s t = Some th -> pl_twid th' = pl_twid th -> thread_ok s t th' ->
+  (forall w, pl_alookup w (pl_queue s) = Some t -> active (pl_tpc th')) ->
+  Inv q0 (pl_tput t th' s).
 Proof.
   intros I G W OK Q. destruct I as [A B C D E F Gm H].
   constructor; auto.
@@ -192,64 +192,64 @@ Proof.
     destruct (N.eq_dec t' t) as [->|Hn].
     + exists th'. rewrite tget_tput_same, G. split; auto. rewrite W. congruence.
     + exists x. rewrite tget_tput_other by auto. auto.
-  - intros w t' Hq. change (queue (tput t th' s)) with (queue s) in Hq.
+  - intros w t' Hq. change (pl_queue (pl_tput t th' s)) with (pl_queue s) in Hq.
     destruct (E _ _ Hq) as (x & Hx & Hw & Ha).
     destruct (N.eq_dec t' t) as [->|Hn].
     + exists th'. rewrite tget_tput_same, G. repeat split; eauto. rewrite W. congruence.
     + exists x. rewrite tget_tput_other by auto. auto.
-  - change (rl (tput t th' s)) with (rl s). unfold rl_ok in *. destruct (rl s) as [|m|m t']; auto.
+  - change (pl_rl (pl_tput t th' s)) with (pl_rl s). unfold rl_ok in *. destruct (pl_rl s) as [|m|m t']; auto.
     destruct F as (F1 & x & Hx & Hw). split; auto.
     destruct (N.eq_dec t' t) as [->|Hn].
     + exists th'. rewrite tget_tput_same, G. split; auto. rewrite W. congruence.
     + exists x. rewrite tget_tput_other by auto. auto.
 Qed.
 
-Lemma with_id_id m i : with_id (with_id m i) (mhid m) = m.
+Lemma with_id_id m i : pl_with_id (pl_with_id m i) (pl_mhid m) = m.
 Proof. destruct m; reflexivity. Qed.
 
 Ltac usek4 K4 :=
-  try (match goal with H : tchan _ = Some _ |- _ => destruct (K4 _ H); assumption end).
+  try (match goal with H : pl_tchan _ = Some _ |- _ => destruct (K4 _ H); assumption end).
 
 (* ---------- every step preserves the invariant ---------- *)
-Lemma step_inv q0 s l s' : Inv q0 s -> pstep s l = Some s' -> Inv q0 s'.
+Lemma step_inv q0 s l s' : Inv q0 s -> pl_step s l = Some s' -> Inv q0 s'.
 Proof.
-  intros I. destruct l; cbn [pstep].
+  intros I. destruct l; cbn [pl_step].
   - (* LSpawn *)
     intros H. inversion H; subst; clear H.
-    assert (Hold : forall t th, tget s t = Some th ->
-              tget (set_nthreads (nthreads s + 1)
-                     (set_threads ((nthreads s, mkPthread c None PStart None false) :: threads s) s)) t = Some th).
+    assert (Hold : forall t th, pl_tget s t = Some th ->
+              pl_tget (pl_set_nthreads (pl_nthreads s + 1)
+                     (pl_set_threads ((pl_nthreads s, PlMkThread c None PlPStart None false) :: pl_threads s) s)) t = Some th).
     { intros t th G. pose proof (inv_threads _ _ I _ _ G) as (Hlt & _).
-      unfold tget. cbn. destruct (t =? nthreads s) eqn:E; auto. apply N.eqb_eq in E. lia. }
+      unfold pl_tget. cbn. destruct (t =? pl_nthreads s) eqn:E; auto. apply N.eqb_eq in E. lia. }
     destruct I as [A B C D E F Gm H].
     constructor; auto.
-    + intros t th G. unfold tget in G. cbn in G.
-      destruct (t =? nthreads s) eqn:Et.
+    + intros t th G. unfold pl_tget in G. cbn in G.
+      destruct (t =? pl_nthreads s) eqn:Et.
       * apply N.eqb_eq in Et. inversion G; subst. unfold thread_ok; cbn. repeat split; try discriminate. lia.
       * eapply thread_ok_mono; [| | |exact (C _ _ G)]; cbn; auto using incl_refl. lia.
     + intros t w Hin. destruct (D _ _ Hin) as (x & Hx & Hw). exists x. auto.
     + intros w t Hq. destruct (E _ _ Hq) as (x & Hx & Hw). exists x. auto.
-    + unfold rl_ok in *. cbn [rl set_nthreads set_threads]. destruct (rl s); auto.
+    + unfold rl_ok in *. cbn [pl_rl pl_set_nthreads pl_set_threads]. destruct (pl_rl s); auto.
       destruct F as (F1 & x & Hx & Hw). split; [exact F1|]. exists x. split; auto.
   - (* LCancel *)
-    destruct (tget s t) as [th|] eqn:G; [|discriminate]. intros H; inversion H; subst; clear H.
+    destruct (pl_tget s t) as [th|] eqn:G; [|discriminate]. intros H; inversion H; subst; clear H.
     eapply inv_tput; eauto.
     + pose proof (inv_threads _ _ I _ _ G) as OK. exact OK.
     + intros w Hq. destruct (inv_queue _ _ I _ _ Hq) as (x & Hx & _ & Ha). rewrite G in Hx. inversion Hx; subst. exact Ha.
   - (* LReserve *)
     intros H; inversion H; subst; clear H. destruct (_ <? _); auto using inv_set_reserved.
   - (* LAdd *)
-    destruct (tget s t) as [th|] eqn:G; [|discriminate].
-    destruct (tpc th) eqn:P; try discriminate.
-    set (s1 := if 0 <? reserved s then set_reserved (reserved s - 1) s else s).
+    destruct (pl_tget s t) as [th|] eqn:G; [|discriminate].
+    destruct (pl_tpc th) eqn:P; try discriminate.
+    set (s1 := if 0 <? pl_reserved s then pl_set_reserved (pl_reserved s - 1) s else s).
     assert (I1 : Inv q0 s1) by (unfold s1; destruct (_ <? _); auto using inv_set_reserved).
-    assert (G1 : tget s1 t = Some th) by (unfold s1; destruct (_ <? _); auto).
-    assert (N1 : nextQid s1 = nextQid s) by (unfold s1; destruct (_ <? _); auto).
-    assert (Q1 : queue s1 = queue s) by (unfold s1; destruct (_ <? _); auto).
-    assert (A1 : alog s1 = alog s) by (unfold s1; destruct (_ <? _); auto).
+    assert (G1 : pl_tget s1 t = Some th) by (unfold s1; destruct (_ <? _); auto).
+    assert (N1 : pl_nextQid s1 = pl_nextQid s) by (unfold s1; destruct (_ <? _); auto).
+    assert (Q1 : pl_queue s1 = pl_queue s) by (unfold s1; destruct (_ <? _); auto).
+    assert (A1 : pl_alog s1 = pl_alog s) by (unfold s1; destruct (_ <? _); auto).
     pose proof (inv_threads _ _ I1 _ _ G1) as (K1 & K2 & K3 & K4 & K5).
     pose proof (K3 P) as Wn.
-    destruct (65535 <? nextQid s) eqn:Eol.
+    destruct (65535 <? pl_nextQid s) eqn:Eol.
     + (* errPipelineConnEoL *)
       intros H; inversion H; subst; clear H.
       eapply inv_tput; eauto.
@@ -258,16 +258,16 @@ Proof.
         rewrite G1 in Hx. inversion Hx; subst. congruence.
     + intros H; inversion H; subst; clear H.
       apply N.ltb_ge in Eol.
-      assert (Hq : nextQid s mod 65536 = nextQid s) by (apply N.mod_small; lia).
+      assert (Hq : pl_nextQid s mod 65536 = pl_nextQid s) by (apply N.mod_small; lia).
       rewrite Hq. clear Hq.
       fold s1.
-      set (q := nextQid s).
-      set (th' := th_pc PAdded (th_wid (Some q) th)).
-      set (s2 := set_alog ((t, q) :: alog s) (set_queue (aset q t (queue s)) (set_nextQid (q + 1) s1))).
-      assert (G2 : tget s2 t = Some th) by exact G1.
-      assert (Hother : forall t' x, t' <> t -> tget s1 t' = Some x -> tget (tput t th' s2) t' = Some x).
+      set (q := pl_nextQid s).
+      set (th' := pl_th_pc PlPAdded (pl_th_wid (Some q) th)).
+      set (s2 := pl_set_alog ((t, q) :: pl_alog s) (pl_set_queue (pl_aset q t (pl_queue s)) (pl_set_nextQid (q + 1) s1))).
+      assert (G2 : pl_tget s2 t = Some th) by exact G1.
+      assert (Hother : forall t' x, t' <> t -> pl_tget s1 t' = Some x -> pl_tget (pl_tput t th' s2) t' = Some x).
       { intros t' x Hn Hx. rewrite tget_tput_other by auto. exact Hx. }
-      assert (Hsame : tget (tput t th' s2) t = Some th').
+      assert (Hsame : pl_tget (pl_tput t th' s2) t = Some th').
       { rewrite tget_tput_same, G2. reflexivity. }
       destruct I1 as [A B C D E F Gm Hnd].
       constructor.
@@ -286,27 +286,27 @@ Proof.
         -- rewrite <- A1 in Hin. destruct (D _ _ Hin) as (x & Hx & Hw).
            destruct (N.eq_dec t' t) as [->|Hn]; [rewrite G1 in Hx; inversion Hx; subst; congruence|].
            exists x. auto.
-      * intros w t' Hlk. change (queue (tput t th' s2)) with (aset q t (queue s)) in Hlk.
-        unfold aset in Hlk. cbn in Hlk.
+      * intros w t' Hlk. change (pl_queue (pl_tput t th' s2)) with (pl_aset q t (pl_queue s)) in Hlk.
+        unfold pl_aset in Hlk. cbn in Hlk.
         destruct (w =? q) eqn:Ew.
         -- apply N.eqb_eq in Ew. inversion Hlk; subst. exists th'. repeat split; auto.
         -- apply N.eqb_neq in Ew. rewrite alookup_aremove_other in Hlk by auto.
            rewrite <- Q1 in Hlk. destruct (E _ _ Hlk) as (x & Hx & Hw & Ha).
            destruct (N.eq_dec t' t) as [->|Hn]; [rewrite G1 in Hx; inversion Hx; subst; congruence|].
            exists x. auto.
-      * change (rl (tput t th' s2)) with (rl s1). unfold rl_ok in *.
-        destruct (rl s1) as [|m|m t']; auto.
+      * change (pl_rl (pl_tput t th' s2)) with (pl_rl s1). unfold rl_ok in *.
+        destruct (pl_rl s1) as [|m|m t']; auto.
         destruct F as (F1 & x & Hx & Hw). split; [exact F1|].
         destruct (N.eq_dec t' t) as [->|Hn]; [rewrite G1 in Hx; inversion Hx; subst; congruence|].
         exists x. auto.
       * exact Gm.
       * exact Hnd.
   - (* LWrite *)
-    destruct (tget s t) as [th|] eqn:G; [|discriminate].
-    destruct (tpc th) eqn:P; try discriminate.
+    destruct (pl_tget s t) as [th|] eqn:G; [|discriminate].
+    destruct (pl_tpc th) eqn:P; try discriminate.
     pose proof (inv_threads _ _ I _ _ G) as (K1 & K2 & K3 & K4 & K5).
     destruct ok.
-    + destruct (closed s); [discriminate|]. intros H; inversion H; subst; clear H.
+    + destruct (pl_closed s); [discriminate|]. intros H; inversion H; subst; clear H.
       eapply inv_tput; eauto.
       * unfold thread_ok; cbn. repeat split; auto; try discriminate; usek4 K4.
       * intros; cbn; trivial.
@@ -315,8 +315,8 @@ Proof.
       * unfold thread_ok; cbn. repeat split; auto; try discriminate; usek4 K4.
       * intros; cbn; trivial.
   - (* LRecv *)
-    destruct (closed s); [discriminate|]. destruct (i <? 65536); [|discriminate].
-    destruct (rl s) eqn:R; try discriminate. intros H; inversion H; subst; clear H.
+    destruct (pl_closed s); [discriminate|]. destruct (i <? 65536); [|discriminate].
+    destruct (pl_rl s) eqn:R; try discriminate. intros H; inversion H; subst; clear H.
     destruct I as [A B C D E F Gm Hnd].
     constructor; auto.
     + intros t th G. eapply thread_ok_mono; [| | |exact (C _ _ G)]; cbn; auto using incl_refl; try lia.
@@ -326,59 +326,59 @@ Proof.
     + cbn. constructor; auto. intros Hin. apply in_map_iff in Hin. destruct Hin as (m & Em & Hin).
       apply Gm in Hin. lia.
   - (* LGarbage *)
-    destruct (closed s); [discriminate|]. destruct (rl s); try discriminate.
-    intros H; inversion H; subst; clear H. destruct (istcp s); auto using inv_set_closed.
+    destruct (pl_closed s); [discriminate|]. destruct (pl_rl s); try discriminate.
+    intros H; inversion H; subst; clear H. destruct (pl_istcp s); auto using inv_set_closed.
   - (* LLookup *)
-    destruct (rl s) as [|m|m t] eqn:R; try discriminate. intros H; inversion H; subst; clear H.
+    destruct (pl_rl s) as [|m|m t] eqn:R; try discriminate. intros H; inversion H; subst; clear H.
     apply inv_set_rl; auto.
     pose proof (inv_rl _ _ I) as F. rewrite R in F. cbn in F.
-    destruct (alookup (mhid m) (queue s)) as [t|] eqn:Q; cbn; auto.
+    destruct (pl_alookup (pl_mhid m) (pl_queue s)) as [t|] eqn:Q; cbn; auto.
     destruct (inv_queue _ _ I _ _ Q) as (x & Hx & Hw & _). split; eauto.
   - (* LSend *)
-    destruct (rl s) as [|m|m t] eqn:R; try discriminate.
-    destruct (tget s t) as [th|] eqn:G; [|discriminate]. intros H; inversion H; subst; clear H.
+    destruct (pl_rl s) as [|m|m t] eqn:R; try discriminate.
+    destruct (pl_tget s t) as [th|] eqn:G; [|discriminate]. intros H; inversion H; subst; clear H.
     pose proof (inv_rl _ _ I) as F. rewrite R in F. cbn in F. destruct F as (F1 & x & Hx & Hw).
     rewrite G in Hx. inversion Hx; subst x; clear Hx.
     pose proof (inv_threads _ _ I _ _ G) as (K1 & K2 & K3 & K4 & K5).
     apply inv_set_rl; [|cbn; trivial].
-    destruct (tchan th) eqn:Ch; auto.
+    destruct (pl_tchan th) eqn:Ch; auto.
     eapply inv_tput; eauto.
     + unfold thread_ok; cbn. repeat split; auto.
       * inversion H; subst; auto.
       * inversion H; subst; auto.
     + intros w Hq. destruct (inv_queue _ _ I _ _ Hq) as (x & Hx & _ & Ha). rewrite G in Hx. inversion Hx; subst. exact Ha.
   - (* LTakeReply *)
-    destruct (tget s t) as [th|] eqn:G; [|discriminate].
-    destruct (tpc th) eqn:P; try discriminate.
-    destruct (tchan th) as [m|] eqn:Ch; [|discriminate]. intros H; inversion H; subst; clear H.
+    destruct (pl_tget s t) as [th|] eqn:G; [|discriminate].
+    destruct (pl_tpc th) eqn:P; try discriminate.
+    destruct (pl_tchan th) as [m|] eqn:Ch; [|discriminate]. intros H; inversion H; subst; clear H.
     pose proof (inv_threads _ _ I _ _ G) as (K1 & K2 & K3 & K4 & K5).
     destruct (K4 _ Ch) as [W Hin].
     eapply inv_tput; eauto.
     + unfold thread_ok; cbn. repeat split; auto; try discriminate; usek4 K4.
-      intros r Hr. inversion Hr; subst. exists (mhid m). rewrite with_id_id. auto.
+      intros r Hr. inversion Hr; subst. exists (pl_mhid m). rewrite with_id_id. auto.
     + intros; cbn; trivial.
   - (* LCtxArm *)
-    destruct (tget s t) as [th|] eqn:G; [|discriminate].
-    destruct (tpc th) eqn:P; try discriminate.
-    destruct (tcancel th); [|discriminate]. intros H; inversion H; subst; clear H.
+    destruct (pl_tget s t) as [th|] eqn:G; [|discriminate].
+    destruct (pl_tpc th) eqn:P; try discriminate.
+    destruct (pl_tcancel th); [|discriminate]. intros H; inversion H; subst; clear H.
     pose proof (inv_threads _ _ I _ _ G) as (K1 & K2 & K3 & K4 & K5).
     eapply inv_tput; eauto.
     + unfold thread_ok; cbn. repeat split; auto; try discriminate; usek4 K4.
     + intros; cbn; trivial.
   - (* LConnArm *)
-    destruct (tget s t) as [th|] eqn:G; [|discriminate].
-    destruct (tpc th) eqn:P; try discriminate.
-    destruct (closed s); [|discriminate]. intros H; inversion H; subst; clear H.
+    destruct (pl_tget s t) as [th|] eqn:G; [|discriminate].
+    destruct (pl_tpc th) eqn:P; try discriminate.
+    destruct (pl_closed s); [|discriminate]. intros H; inversion H; subst; clear H.
     pose proof (inv_threads _ _ I _ _ G) as (K1 & K2 & K3 & K4 & K5).
     eapply inv_tput; eauto.
     + unfold thread_ok; cbn. repeat split; auto; try discriminate; usek4 K4.
     + intros; cbn; trivial.
   - (* LDelete *)
-    destruct (tget s t) as [th|] eqn:G; [|discriminate].
-    destruct (tpc th) eqn:P; try discriminate.
-    destruct (twid th) as [w|] eqn:W; [|discriminate]. intros H; inversion H; subst; clear H.
+    destruct (pl_tget s t) as [th|] eqn:G; [|discriminate].
+    destruct (pl_tpc th) eqn:P; try discriminate.
+    destruct (pl_twid th) as [w|] eqn:W; [|discriminate]. intros H; inversion H; subst; clear H.
     pose proof (inv_threads _ _ I _ _ G) as (K1 & K2 & K3 & K4 & K5).
-    assert (QO : queue_ok s (aremove w (queue s))).
+    assert (QO : queue_ok s (pl_aremove w (pl_queue s))).
     { intros w' t' Hq. destruct (N.eq_dec w' w) as [->|Hn]; [rewrite alookup_aremove_same in Hq; discriminate|].
       rewrite alookup_aremove_other in Hq by auto. exact (inv_queue _ _ I _ _ Hq). }
     eapply inv_tput; [apply inv_set_queue; eauto|exact G|reflexivity| |].
@@ -389,8 +389,8 @@ Proof.
       rewrite alookup_aremove_other in Hq by auto.
       destruct (inv_queue _ _ I _ _ Hq) as (x & Hx & Hw & _). rewrite G in Hx. inversion Hx; subst. congruence.
   - (* LEolClose *)
-    destruct (tget s t) as [th|] eqn:G; [|discriminate].
-    destruct (tpc th) eqn:P; try discriminate. intros H; inversion H; subst; clear H.
+    destruct (pl_tget s t) as [th|] eqn:G; [|discriminate].
+    destruct (pl_tpc th) eqn:P; try discriminate. intros H; inversion H; subst; clear H.
     pose proof (inv_threads _ _ I _ _ G) as (K1 & K2 & K3 & K4 & K5).
     eapply inv_tput; [apply inv_set_closed; eauto|exact G|reflexivity| |].
     + unfold thread_ok. rewrite P in K5. cbn. repeat split; auto; try discriminate; usek4 K4.
@@ -401,27 +401,27 @@ Proof.
     intros H; inversion H; subst; clear H. apply inv_set_closed; auto.
 Qed.
 
-Lemma run_inv q0 ls s s' : Inv q0 s -> run ls s = Some s' -> Inv q0 s'.
+Lemma run_inv q0 ls s s' : Inv q0 s -> pl_run ls s = Some s' -> Inv q0 s'.
 Proof.
   revert s. induction ls as [|l ls IH]; cbn; intros s I H.
   - inversion H; subst; auto.
-  - destruct (pstep s l) eqn:E; [|discriminate]. eapply IH; [|exact H]. eapply step_inv; eauto.
+  - destruct (pl_step s l) eqn:E; [|discriminate]. eapply IH; [|exact H]. eapply step_inv; eauto.
 Qed.
 
-Definition reachable (tcp : bool) (q0 : N) (s : pstate) : Prop :=
-  exists ls, run ls (pinit tcp q0) = Some s.
+Definition reachable (tcp : bool) (q0 : N) (s : pl_state) : Prop :=
+  exists ls, pl_run ls (pl_init tcp q0) = Some s.
 
 Lemma reachable_inv tcp q0 s : q0 <= 65536 -> reachable tcp q0 s -> Inv q0 s.
 Proof. intros H [ls R]. eapply run_inv; [apply inv_init; exact H|exact R]. Qed.
 
-Lemma run_app ls1 ls2 s s1 s2 : run ls1 s = Some s1 -> run ls2 s1 = Some s2 -> run (ls1 ++ ls2) s = Some s2.
+Lemma run_app ls1 ls2 s s1 s2 : pl_run ls1 s = Some s1 -> pl_run ls2 s1 = Some s2 -> pl_run (ls1 ++ ls2) s = Some s2.
 Proof.
   revert s. induction ls1 as [|l ls1 IH]; cbn; intros s H1 H2.
   - inversion H1; subst; auto.
-  - destruct (pstep s l); [|discriminate]. eauto.
+  - destruct (pl_step s l); [|discriminate]. eauto.
 Qed.
 
-Lemma reachable_run tcp q0 s ls s' : reachable tcp q0 s -> run ls s = Some s' -> reachable tcp q0 s'.
+Lemma reachable_run tcp q0 s ls s' : reachable tcp q0 s -> pl_run ls s = Some s' -> reachable tcp q0 s'.
 Proof. intros [l0 R] H. exists (l0 ++ ls). eapply run_app; eauto. Qed.
 
 (* ====================================================================================== *)
@@ -431,7 +431,7 @@ Fixpoint nseq (a : N) (n : nat) : list N :=
   match n with O => [] | S k => a :: nseq (a + 1) k end.
 
 (* wire ids in the order they were assigned *)
-Definition assigned_ids (s : pstate) : list N := rev (map snd (alog s)).
+Definition assigned_ids (s : pl_state) : list N := rev (map snd (pl_alog s)).
 
 Lemma nseq_snoc a n : nseq a n ++ [a + N.of_nat n] = nseq a (S n).
 Proof.
@@ -464,9 +464,9 @@ Qed.
 
 Theorem ids_fresh tcp q0 s :
   q0 <= 65536 -> reachable tcp q0 s ->
-  assigned_ids s = nseq q0 (length (alog s)) /\
-  nextQid s = q0 + N.of_nat (length (alog s)) /\
-  nextQid s <= 65536 /\
+  assigned_ids s = nseq q0 (length (pl_alog s)) /\
+  pl_nextQid s = q0 + N.of_nat (length (pl_alog s)) /\
+  pl_nextQid s <= 65536 /\
   (forall w, In w (assigned_ids s) -> q0 <= w <= 65535) /\
   NoDup (assigned_ids s).
 Proof.
@@ -482,9 +482,9 @@ Qed.
 (* the id an exchange holds is the one logged for it, and two exchanges never hold the same id *)
 Theorem ids_exchange tcp q0 s :
   q0 <= 65536 -> reachable tcp q0 s ->
-  (forall t th w, tget s t = Some th -> twid th = Some w -> In w (assigned_ids s)) /\
-  (forall t1 t2 th1 th2 w, tget s t1 = Some th1 -> tget s t2 = Some th2 ->
-     twid th1 = Some w -> twid th2 = Some w -> t1 = t2).
+  (forall t th w, pl_tget s t = Some th -> pl_twid th = Some w -> In w (assigned_ids s)) /\
+  (forall t1 t2 th1 th2 w, pl_tget s t1 = Some th1 -> pl_tget s t2 = Some th2 ->
+     pl_twid th1 = Some w -> pl_twid th2 = Some w -> t1 = t2).
 Proof.
   intros Hq R. pose proof (reachable_inv _ _ _ Hq R) as I. split.
   - intros t th w G W. destruct (inv_threads _ _ I _ _ G) as (_ & K2 & _).
@@ -494,10 +494,10 @@ Qed.
 
 (* the waiter table is never overwritten: the id addQueueC is about to assign has no entry *)
 Theorem add_no_overwrite tcp q0 s :
-  q0 <= 65536 -> reachable tcp q0 s -> forall w, nextQid s <= w -> alookup w (queue s) = None.
+  q0 <= 65536 -> reachable tcp q0 s -> forall w, pl_nextQid s <= w -> pl_alookup w (pl_queue s) = None.
 Proof.
   intros Hq R w Hw. pose proof (reachable_inv _ _ _ Hq R) as I.
-  destruct (alookup w (queue s)) as [t|] eqn:Q; auto.
+  destruct (pl_alookup w (pl_queue s)) as [t|] eqn:Q; auto.
   destruct (inv_queue _ _ I _ _ Q) as (x & Hx & Hwid & _).
   destruct (inv_threads _ _ I _ _ Hx) as (_ & K2 & _).
   apply K2 in Hwid. apply (alog_ok_bounds _ _ _ (inv_alog _ _ I)) in Hwid. lia.
@@ -505,65 +505,65 @@ Qed.
 
 (* after the last id (65535) has been used addQueueC fails: nothing is assigned, nothing wraps *)
 Theorem add_exhausted tcp q0 s t th :
-  q0 <= 65536 -> reachable tcp q0 s -> nextQid s = 65536 ->
-  tget s t = Some th -> tpc th = PStart ->
-  status_available s = false /\
-  exists s' th', pstep s (LAdd t) = Some s' /\
-    tget s' t = Some th' /\ tpc th' = PReturned RErrEoL /\ twid th' = None /\
-    nextQid s' = 65536 /\ alog s' = alog s /\ queue s' = queue s.
+  q0 <= 65536 -> reachable tcp q0 s -> pl_nextQid s = 65536 ->
+  pl_tget s t = Some th -> pl_tpc th = PlPStart ->
+  pl_status_available s = false /\
+  exists s' th', pl_step s (PlLAdd t) = Some s' /\
+    pl_tget s' t = Some th' /\ pl_tpc th' = PlPReturned PlRErrEoL /\ pl_twid th' = None /\
+    pl_nextQid s' = 65536 /\ pl_alog s' = pl_alog s /\ pl_queue s' = pl_queue s.
 Proof.
   intros Hq R Hn G P. pose proof (reachable_inv _ _ _ Hq R) as I.
   destruct (inv_threads _ _ I _ _ G) as (_ & _ & K3 & _).
   split.
-  - unfold status_available. rewrite Hn. apply N.leb_gt. lia.
-  - cbn [pstep]. rewrite G, P. rewrite Hn. cbn [N.ltb N.compare Pos.compare Pos.compare_cont].
+  - unfold pl_status_available. rewrite Hn. apply N.leb_gt. lia.
+  - cbn [pl_step]. rewrite G, P. rewrite Hn. cbn [N.ltb N.compare Pos.compare Pos.compare_cont].
     replace (65535 <? 65536) with true by reflexivity.
     eexists. eexists. split; [reflexivity|].
     rewrite tget_tput_same.
-    assert (E : tget (if 0 <? reserved s then set_reserved (reserved s - 1) s else s) t = Some th)
-      by (destruct (0 <? reserved s); exact G).
-    rewrite E. repeat split; cbn; auto; destruct (0 <? reserved s); cbn; auto.
+    assert (E : pl_tget (if 0 <? pl_reserved s then pl_set_reserved (pl_reserved s - 1) s else s) t = Some th)
+      by (destruct (0 <? pl_reserved s); exact G).
+    rewrite E. repeat split; cbn; auto; destruct (0 <? pl_reserved s); cbn; auto.
 Qed.
 
 (* ... and the exhausted connection retires itself when its last waiter leaves *)
 Theorem retire_when_drained s t th r w :
-  nextQid s = 65536 -> tget s t = Some th -> tpc th = PLeaving r -> twid th = Some w ->
-  queue s = [(w, t)] ->
-  exists s1 s2, pstep s (LDelete t) = Some s1 /\ pstep s1 (LEolClose t) = Some s2 /\
-    closed s2 = true /\ queue s2 = [] /\ status_available s2 = false /\
-    exists th2, tget s2 t = Some th2 /\ tpc th2 = PReturned r.
+  pl_nextQid s = 65536 -> pl_tget s t = Some th -> pl_tpc th = PlPLeaving r -> pl_twid th = Some w ->
+  pl_queue s = [(w, t)] ->
+  exists s1 s2, pl_step s (PlLDelete t) = Some s1 /\ pl_step s1 (PlLEolClose t) = Some s2 /\
+    pl_closed s2 = true /\ pl_queue s2 = [] /\ pl_status_available s2 = false /\
+    exists th2, pl_tget s2 t = Some th2 /\ pl_tpc th2 = PlPReturned r.
 Proof.
   intros Hn G P W Q.
-  set (s1 := tput t (th_pc (PEol r) th) (set_queue [] s)).
-  assert (S1 : pstep s (LDelete t) = Some s1).
-  { cbn [pstep]. rewrite G, P, W, Q, Hn. cbn [aremove]. rewrite N.eqb_refl. reflexivity. }
-  assert (G1 : tget s1 t = Some (th_pc (PEol r) th)).
-  { unfold s1. rewrite tget_tput_same. change (tget (set_queue [] s) t) with (tget s t). rewrite G. reflexivity. }
-  set (s2 := tput t (th_pc (PReturned r) (th_pc (PEol r) th)) (set_closed true s1)).
-  assert (S2 : pstep s1 (LEolClose t) = Some s2).
-  { cbn [pstep]. rewrite G1. reflexivity. }
+  set (s1 := pl_tput t (pl_th_pc (PlPEol r) th) (pl_set_queue [] s)).
+  assert (S1 : pl_step s (PlLDelete t) = Some s1).
+  { cbn [pl_step]. rewrite G, P, W, Q, Hn. cbn [pl_aremove]. rewrite N.eqb_refl. reflexivity. }
+  assert (G1 : pl_tget s1 t = Some (pl_th_pc (PlPEol r) th)).
+  { unfold s1. rewrite tget_tput_same. change (pl_tget (pl_set_queue [] s) t) with (pl_tget s t). rewrite G. reflexivity. }
+  set (s2 := pl_tput t (pl_th_pc (PlPReturned r) (pl_th_pc (PlPEol r) th)) (pl_set_closed true s1)).
+  assert (S2 : pl_step s1 (PlLEolClose t) = Some s2).
+  { cbn [pl_step]. rewrite G1. reflexivity. }
   exists s1, s2. repeat split; auto.
-  - unfold status_available. cbn. rewrite Hn. apply N.leb_gt. lia.
+  - unfold pl_status_available. cbn. rewrite Hn. apply N.leb_gt. lia.
   - eexists. split.
-    + unfold s2. rewrite tget_tput_same. change (tget (set_closed true s1) t) with (tget s1 t). rewrite G1. reflexivity.
+    + unfold s2. rewrite tget_tput_same. change (pl_tget (pl_set_closed true s1) t) with (pl_tget s1 t). rewrite G1. reflexivity.
     + reflexivity.
 Qed.
 
 (* ====================================================================================== *)
 (* C05_delivery, C05_no_double                                                            *)
 (* ====================================================================================== *)
-Lemma with_id_back r w : with_id (with_id r w) (mhid r) = r.
+Lemma with_id_back r w : pl_with_id (pl_with_id r w) (pl_mhid r) = r.
 Proof. destruct r; reflexivity. Qed.
 
 Theorem delivery tcp q0 s t th r :
   q0 <= 65536 -> reachable tcp q0 s ->
-  tget s t = Some th -> pc_result (tpc th) = Some (RMsg r) ->
-  exists w m, twid th = Some w /\ In m (emitted s) /\ mhid m = w /\ mhid m < 65536 /\ r = with_id m (cid th).
+  pl_tget s t = Some th -> pc_result (pl_tpc th) = Some (PlRMsg r) ->
+  exists w m, pl_twid th = Some w /\ In m (pl_emitted s) /\ pl_mhid m = w /\ pl_mhid m < 65536 /\ r = pl_with_id m (pl_cid th).
 Proof.
   intros Hq R G P. pose proof (reachable_inv _ _ _ Hq R) as I.
   destruct (inv_threads _ _ I _ _ G) as (_ & K2 & _ & _ & K5).
   destruct (K5 _ P) as (w & W & Hin & Hc).
-  exists w, (with_id r w). repeat split; auto.
+  exists w, (pl_with_id r w). repeat split; auto.
   - cbn. apply K2 in W. apply (alog_ok_bounds _ _ _ (inv_alog _ _ I)) in W.
     pose proof (inv_next _ _ I). lia.
   - rewrite <- Hc. symmetry. apply with_id_back.
@@ -571,15 +571,15 @@ Qed.
 
 Theorem no_double tcp q0 s t1 t2 th1 th2 r1 r2 :
   q0 <= 65536 -> reachable tcp q0 s ->
-  tget s t1 = Some th1 -> tget s t2 = Some th2 ->
-  pc_result (tpc th1) = Some (RMsg r1) -> pc_result (tpc th2) = Some (RMsg r2) ->
-  mid r1 = mid r2 -> t1 = t2.
+  pl_tget s t1 = Some th1 -> pl_tget s t2 = Some th2 ->
+  pc_result (pl_tpc th1) = Some (PlRMsg r1) -> pc_result (pl_tpc th2) = Some (PlRMsg r2) ->
+  pl_mid r1 = pl_mid r2 -> t1 = t2.
 Proof.
   intros Hq R G1 G2 P1 P2 E. pose proof (reachable_inv _ _ _ Hq R) as I.
   destruct (inv_threads _ _ I _ _ G1) as (_ & _ & _ & _ & K5).
   destruct (inv_threads _ _ I _ _ G2) as (_ & _ & _ & _ & L5).
   destruct (K5 _ P1) as (w1 & W1 & In1 & _). destruct (L5 _ P2) as (w2 & W2 & In2 & _).
-  assert (Em : with_id r1 w1 = with_id r2 w2).
+  assert (Em : pl_with_id r1 w1 = pl_with_id r2 w2).
   { eapply in_mid_nodup; eauto using (inv_mid_nodup _ _ I). }
   assert (w1 = w2) by (inversion Em; auto). subst w2.
   eapply wid_inj; eauto.
@@ -588,8 +588,8 @@ Qed.
 (* the one-slot channel never holds, and the read loop never forwards, a message for a foreign id *)
 Theorem routing tcp q0 s :
   q0 <= 65536 -> reachable tcp q0 s ->
-  (forall t th m, tget s t = Some th -> tchan th = Some m -> twid th = Some (mhid m) /\ In m (emitted s)) /\
-  (forall m t, rl s = RSend m t -> exists th, tget s t = Some th /\ twid th = Some (mhid m)).
+  (forall t th m, pl_tget s t = Some th -> pl_tchan th = Some m -> pl_twid th = Some (pl_mhid m) /\ In m (pl_emitted s)) /\
+  (forall m t, pl_rl s = PlRSend m t -> exists th, pl_tget s t = Some th /\ pl_twid th = Some (pl_mhid m)).
 Proof.
   intros Hq R. pose proof (reachable_inv _ _ _ Hq R) as I. split.
   - intros t th m G C. destruct (inv_threads _ _ I _ _ G) as (_ & _ & _ & K4 & _). auto.
@@ -600,18 +600,18 @@ Qed.
 (* C05_late_reply                                                                         *)
 (* ====================================================================================== *)
 (* Once exchange t has chosen its outcome ... *)
-Definition decided (th : pthread) : Prop := pc_result (tpc th) <> None.
+Definition decided (th : pl_thread) : Prop := pc_result (pl_tpc th) <> None.
 (* ... and its deferred deleteQueueC has run *)
-Definition left_queue (th : pthread) : Prop :=
-  match tpc th with PEol _ | PReturned _ => True | _ => False end.
+Definition left_queue (th : pl_thread) : Prop :=
+  match pl_tpc th with PlPEol _ | PlPReturned _ => True | _ => False end.
 
 (* what can never be undone by later steps *)
-Definition ext (s s' : pstate) : Prop :=
-  incl (emitted s) (emitted s') /\ nemit s <= nemit s' /\
-  forall t th, tget s t = Some th ->
-    exists th', tget s' t = Some th' /\ cid th' = cid th /\
-      (forall w, twid th = Some w -> twid th' = Some w) /\
-      (forall r, pc_result (tpc th) = Some r -> pc_result (tpc th') = Some r) /\
+Definition ext (s s' : pl_state) : Prop :=
+  incl (pl_emitted s) (pl_emitted s') /\ pl_nemit s <= pl_nemit s' /\
+  forall t th, pl_tget s t = Some th ->
+    exists th', pl_tget s' t = Some th' /\ pl_cid th' = pl_cid th /\
+      (forall w, pl_twid th = Some w -> pl_twid th' = Some w) /\
+      (forall r, pc_result (pl_tpc th) = Some r -> pc_result (pl_tpc th') = Some r) /\
       (left_queue th -> left_queue th').
 
 Lemma ext_refl s : ext s s.
@@ -628,18 +628,18 @@ Proof.
 Qed.
 
 Lemma ext_same s s' :
-  threads s' = threads s -> emitted s' = emitted s -> nemit s' = nemit s -> ext s s'.
+  pl_threads s' = pl_threads s -> pl_emitted s' = pl_emitted s -> pl_nemit s' = pl_nemit s -> ext s s'.
 Proof.
-  intros T E Nn. unfold ext, tget. rewrite T, E, Nn. repeat split; auto using incl_refl; try lia.
+  intros T E Nn. unfold ext, pl_tget. rewrite T, E, Nn. repeat split; auto using incl_refl; try lia.
   intros t th G. exists th. auto.
 Qed.
 
 Lemma ext_tput s t th th' :
-  tget s t = Some th -> cid th' = cid th ->
-  (forall w, twid th = Some w -> twid th' = Some w) ->
-  (forall r, pc_result (tpc th) = Some r -> pc_result (tpc th') = Some r) ->
+  pl_tget s t = Some th -> pl_cid th' = pl_cid th ->
+  (forall w, pl_twid th = Some w -> pl_twid th' = Some w) ->
+  (forall r, pc_result (pl_tpc th) = Some r -> pc_result (pl_tpc th') = Some r) ->
   (left_queue th -> left_queue th') ->
-  ext s (tput t th' s).
+  ext s (pl_tput t th' s).
 Proof.
   intros G C W P L. split; [apply incl_refl|]. split; [cbn; lia|].
   intros t' x Gx. destruct (N.eq_dec t' t) as [->|Hn].
@@ -650,23 +650,23 @@ Qed.
 Ltac exttac P :=
   eapply ext_tput; eauto; unfold left_queue; try rewrite P; cbn; try discriminate; try tauto.
 
-Lemma step_ext q0 s l s' : Inv q0 s -> pstep s l = Some s' -> ext s s'.
+Lemma step_ext q0 s l s' : Inv q0 s -> pl_step s l = Some s' -> ext s s'.
 Proof.
-  intros I. destruct l; cbn [pstep].
+  intros I. destruct l; cbn [pl_step].
   - intros H; inversion H; subst; clear H. repeat split; cbn; auto using incl_refl; try lia.
     intros t th G. exists th. repeat split; auto.
     destruct (inv_threads _ _ I _ _ G) as (K1 & _).
-    unfold tget. cbn. destruct (t =? nthreads s) eqn:E; auto. apply N.eqb_eq in E. lia.
-  - destruct (tget s t) as [th|] eqn:G; [|discriminate]. intros H; inversion H; subst; clear H.
+    unfold pl_tget. cbn. destruct (t =? pl_nthreads s) eqn:E; auto. apply N.eqb_eq in E. lia.
+  - destruct (pl_tget s t) as [th|] eqn:G; [|discriminate]. intros H; inversion H; subst; clear H.
     eapply ext_tput; eauto.
   - intros H; inversion H; subst; clear H. destruct (_ <? _); [apply ext_same; reflexivity|apply ext_refl].
-  - destruct (tget s t) as [th|] eqn:G; [|discriminate].
-    destruct (tpc th) eqn:P; try discriminate.
+  - destruct (pl_tget s t) as [th|] eqn:G; [|discriminate].
+    destruct (pl_tpc th) eqn:P; try discriminate.
     destruct (inv_threads _ _ I _ _ G) as (_ & _ & K3 & _). pose proof (K3 P) as Wn.
-    set (s1 := if 0 <? reserved s then set_reserved (reserved s - 1) s else s).
+    set (s1 := if 0 <? pl_reserved s then pl_set_reserved (pl_reserved s - 1) s else s).
     assert (E1 : ext s s1) by (unfold s1; destruct (_ <? _); [apply ext_same; reflexivity|apply ext_refl]).
-    assert (G1 : tget s1 t = Some th) by (unfold s1; destruct (_ <? _); auto).
-    destruct (65535 <? nextQid s).
+    assert (G1 : pl_tget s1 t = Some th) by (unfold s1; destruct (_ <? _); auto).
+    destruct (65535 <? pl_nextQid s).
     + intros H; inversion H; subst; clear H. eapply ext_trans; [exact E1|].
       exttac P.
     + intros H; inversion H; subst; clear H. eapply ext_trans; [exact E1|]. fold s1.
@@ -674,60 +674,60 @@ Proof.
       * rewrite Wn. discriminate.
       * rewrite P. discriminate.
       * unfold left_queue. rewrite P. tauto.
-  - destruct (tget s t) as [th|] eqn:G; [|discriminate].
-    destruct (tpc th) eqn:P; try discriminate.
+  - destruct (pl_tget s t) as [th|] eqn:G; [|discriminate].
+    destruct (pl_tpc th) eqn:P; try discriminate.
     destruct ok.
-    + destruct (closed s); [discriminate|]. intros H; inversion H; subst; clear H.
+    + destruct (pl_closed s); [discriminate|]. intros H; inversion H; subst; clear H.
       exttac P.
     + intros H; inversion H; subst; clear H.
       exttac P.
-  - destruct (closed s); [discriminate|]. destruct (i <? 65536); [|discriminate].
-    destruct (rl s); try discriminate. intros H; inversion H; subst; clear H.
+  - destruct (pl_closed s); [discriminate|]. destruct (i <? 65536); [|discriminate].
+    destruct (pl_rl s); try discriminate. intros H; inversion H; subst; clear H.
     repeat split; cbn; try lia.
     + apply incl_tl, incl_refl.
     + intros t th G. exists th. auto.
-  - destruct (closed s); [discriminate|]. destruct (rl s); try discriminate.
-    intros H; inversion H; subst; clear H. destruct (istcp s); [apply ext_same; reflexivity|apply ext_refl].
-  - destruct (rl s); try discriminate. intros H; inversion H; subst; clear H. apply ext_same; reflexivity.
-  - destruct (rl s) as [|m|m t]; try discriminate.
-    destruct (tget s t) as [th|] eqn:G; [|discriminate]. intros H; inversion H; subst; clear H.
-    destruct (tchan th).
+  - destruct (pl_closed s); [discriminate|]. destruct (pl_rl s); try discriminate.
+    intros H; inversion H; subst; clear H. destruct (pl_istcp s); [apply ext_same; reflexivity|apply ext_refl].
+  - destruct (pl_rl s); try discriminate. intros H; inversion H; subst; clear H. apply ext_same; reflexivity.
+  - destruct (pl_rl s) as [|m|m t]; try discriminate.
+    destruct (pl_tget s t) as [th|] eqn:G; [|discriminate]. intros H; inversion H; subst; clear H.
+    destruct (pl_tchan th).
     + apply ext_same; reflexivity.
-    + eapply ext_trans; [eapply ext_tput with (th := th) (th' := th_chan (Some m) th); eauto|].
+    + eapply ext_trans; [eapply ext_tput with (th := th) (th' := pl_th_chan (Some m) th); eauto|].
       apply ext_same; reflexivity.
-  - destruct (tget s t) as [th|] eqn:G; [|discriminate].
-    destruct (tpc th) eqn:P; try discriminate.
-    destruct (tchan th); [|discriminate]. intros H; inversion H; subst; clear H.
+  - destruct (pl_tget s t) as [th|] eqn:G; [|discriminate].
+    destruct (pl_tpc th) eqn:P; try discriminate.
+    destruct (pl_tchan th); [|discriminate]. intros H; inversion H; subst; clear H.
     exttac P.
-  - destruct (tget s t) as [th|] eqn:G; [|discriminate].
-    destruct (tpc th) eqn:P; try discriminate.
-    destruct (tcancel th); [|discriminate]. intros H; inversion H; subst; clear H.
+  - destruct (pl_tget s t) as [th|] eqn:G; [|discriminate].
+    destruct (pl_tpc th) eqn:P; try discriminate.
+    destruct (pl_tcancel th); [|discriminate]. intros H; inversion H; subst; clear H.
     exttac P.
-  - destruct (tget s t) as [th|] eqn:G; [|discriminate].
-    destruct (tpc th) eqn:P; try discriminate.
-    destruct (closed s); [|discriminate]. intros H; inversion H; subst; clear H.
+  - destruct (pl_tget s t) as [th|] eqn:G; [|discriminate].
+    destruct (pl_tpc th) eqn:P; try discriminate.
+    destruct (pl_closed s); [|discriminate]. intros H; inversion H; subst; clear H.
     exttac P.
-  - destruct (tget s t) as [th|] eqn:G; [|discriminate].
-    destruct (tpc th) eqn:P; try discriminate.
-    destruct (twid th) as [w|] eqn:W; [|discriminate]. intros H; inversion H; subst; clear H.
-    eapply ext_trans; [apply (ext_same s (set_queue (aremove w (queue s)) s)); reflexivity|].
+  - destruct (pl_tget s t) as [th|] eqn:G; [|discriminate].
+    destruct (pl_tpc th) eqn:P; try discriminate.
+    destruct (pl_twid th) as [w|] eqn:W; [|discriminate]. intros H; inversion H; subst; clear H.
+    eapply ext_trans; [apply (ext_same s (pl_set_queue (pl_aremove w (pl_queue s)) s)); reflexivity|].
     eapply ext_tput; eauto.
     + rewrite P. cbn. intros r0 Hr. destruct (_ && _); exact Hr.
     + unfold left_queue. rewrite P. tauto.
-  - destruct (tget s t) as [th|] eqn:G; [|discriminate].
-    destruct (tpc th) eqn:P; try discriminate. intros H; inversion H; subst; clear H.
-    eapply ext_trans; [apply (ext_same s (set_closed true s)); reflexivity|].
+  - destruct (pl_tget s t) as [th|] eqn:G; [|discriminate].
+    destruct (pl_tpc th) eqn:P; try discriminate. intros H; inversion H; subst; clear H.
+    eapply ext_trans; [apply (ext_same s (pl_set_closed true s)); reflexivity|].
     eapply ext_tput; eauto.
     + rewrite P. cbn. auto.
     + unfold left_queue. cbn. auto.
   - intros H; inversion H; subst; clear H. apply ext_same; reflexivity.
 Qed.
 
-Lemma run_ext q0 ls s s' : Inv q0 s -> run ls s = Some s' -> ext s s'.
+Lemma run_ext q0 ls s s' : Inv q0 s -> pl_run ls s = Some s' -> ext s s'.
 Proof.
   revert s. induction ls as [|l ls IH]; cbn; intros s I H.
   - inversion H; subst. apply ext_refl.
-  - destruct (pstep s l) as [s1|] eqn:E; [|discriminate].
+  - destruct (pl_step s l) as [s1|] eqn:E; [|discriminate].
     eapply ext_trans; [eapply step_ext; eauto|]. eapply IH; eauto. eapply step_inv; eauto.
 Qed.
 
@@ -735,29 +735,29 @@ Qed.
        returns nil for any later message carrying it *)
 Theorem late_reply_discarded tcp q0 s t th w :
   q0 <= 65536 -> reachable tcp q0 s ->
-  tget s t = Some th -> twid th = Some w -> left_queue th ->
-  forall ls s', run ls s = Some s' -> alookup w (queue s') = None.
+  pl_tget s t = Some th -> pl_twid th = Some w -> left_queue th ->
+  forall ls s', pl_run ls s = Some s' -> pl_alookup w (pl_queue s') = None.
 Proof.
   intros Hq R G W L ls s' Run.
   pose proof (reachable_inv _ _ _ Hq R) as I.
   pose proof (run_inv _ _ _ _ I Run) as I'.
   destruct (run_ext _ _ _ _ I Run) as (_ & _ & E3).
   destruct (E3 _ _ G) as (th' & G' & _ & W' & P' & L').
-  destruct (alookup w (queue s')) as [t'|] eqn:Q; auto.
+  destruct (pl_alookup w (pl_queue s')) as [t'|] eqn:Q; auto.
   destruct (inv_queue _ _ I' _ _ Q) as (x & Gx & Wx & Ax).
   assert (t' = t) by (eapply wid_inj; eauto). subst t'.
   rewrite G' in Gx. inversion Gx; subst x; clear Gx.
-  apply L' in L. unfold left_queue in L. destruct (tpc th'); cbn in *; contradiction.
+  apply L' in L. unfold left_queue in L. destruct (pl_tpc th'); cbn in *; contradiction.
 Qed.
 
 (* (b) a message instance received after exchange t decided (instance number >= nemit s), carrying t's
        wire id, is never returned by ANY exchange, whatever happens later *)
 Theorem late_reply_never_returned tcp q0 s t th w :
   q0 <= 65536 -> reachable tcp q0 s ->
-  tget s t = Some th -> twid th = Some w -> decided th ->
-  forall ls s', run ls s = Some s' ->
-  forall m, In m (emitted s') -> nemit s <= mid m -> mhid m = w ->
-  forall t' th' r, tget s' t' = Some th' -> pc_result (tpc th') = Some (RMsg r) -> mid r <> mid m.
+  pl_tget s t = Some th -> pl_twid th = Some w -> decided th ->
+  forall ls s', pl_run ls s = Some s' ->
+  forall m, In m (pl_emitted s') -> pl_nemit s <= pl_mid m -> pl_mhid m = w ->
+  forall t' th' r, pl_tget s' t' = Some th' -> pc_result (pl_tpc th') = Some (PlRMsg r) -> pl_mid r <> pl_mid m.
 Proof.
   intros Hq R G W D ls s' Run m Hm Hlate Hid t' th' r G' P' Emid.
   pose proof (reachable_inv _ _ _ Hq R) as I.
@@ -766,12 +766,12 @@ Proof.
   destruct (E3 _ _ G) as (th1 & G1 & _ & W1 & P1 & _).
   destruct (inv_threads _ _ I' _ _ G') as (_ & _ & _ & _ & K5).
   destruct (K5 _ P') as (w' & Ww' & Hin' & _).
-  assert (Em : with_id r w' = m).
+  assert (Em : pl_with_id r w' = m).
   { eapply in_mid_nodup; eauto using (inv_mid_nodup _ _ I'). }
   assert (w' = w) by (rewrite <- Hid, <- Em; reflexivity). subst w'.
   assert (t' = t) by (eapply wid_inj; eauto). subst t'.
   rewrite G1 in G'. inversion G'; subst th'; clear G'.
-  unfold decided in D. destruct (pc_result (tpc th)) as [r0|] eqn:P0; [|congruence].
+  unfold decided in D. destruct (pc_result (pl_tpc th)) as [r0|] eqn:P0; [|congruence].
   specialize (P1 _ eq_refl). rewrite P1 in P'. inversion P'; subst r0; clear P'.
   destruct (inv_threads _ _ I _ _ G) as (_ & _ & _ & _ & L5).
   destruct (L5 _ P0) as (w0 & Ww0 & Hin0 & _).
@@ -781,46 +781,46 @@ Qed.
 (* ====================================================================================== *)
 (* big_refines_small                                                                      *)
 (* ====================================================================================== *)
-Definition sched (s s' : pstate) : Prop := exists ls, run ls s = Some s'.
+Definition sched (s s' : pl_state) : Prop := exists ls, pl_run ls s = Some s'.
 
 Lemma sched_refl s : sched s s. Proof. exists []. reflexivity. Qed.
 Lemma sched_trans a b c : sched a b -> sched b c -> sched a c.
 Proof. intros [l1 H1] [l2 H2]. exists (l1 ++ l2). eapply run_app; eauto. Qed.
 
-Lemma sched_exec s l : sched s (pexec s l).
+Lemma sched_exec s l : sched s (pl_exec s l).
 Proof.
-  unfold pexec. destruct (pstep s l) as [s'|] eqn:E; [|apply sched_refl].
+  unfold pl_exec. destruct (pl_step s l) as [s'|] eqn:E; [|apply sched_refl].
   exists [l]. cbn. rewrite E. reflexivity.
 Qed.
 
-Lemma sched_fold {A} (f : pstate -> A -> pstate) (l : list A) :
+Lemma sched_fold {A} (f : pl_state -> A -> pl_state) (l : list A) :
   (forall s a, sched s (f s a)) -> forall s, sched s (fold_left f l s).
 Proof.
   intros Hf. induction l as [|a l IH]; cbn; intros s; [apply sched_refl|].
   eapply sched_trans; [apply Hf|apply IH].
 Qed.
 
-Lemma sched_settle t s : sched s (settle t s).
-Proof. unfold settle. apply sched_fold. apply sched_exec. Qed.
+Lemma sched_settle t s : sched s (pl_settle t s).
+Proof. unfold pl_settle. apply sched_fold. apply sched_exec. Qed.
 
-Lemma sched_settle_all s : sched s (settle_all s).
-Proof. unfold settle_all. apply sched_fold. intros. apply sched_settle. Qed.
+Lemma sched_settle_all s : sched s (pl_settle_all s).
+Proof. unfold pl_settle_all. apply sched_fold. intros. apply sched_settle. Qed.
 
-Lemma sched_do_emit i tag s : sched s (do_emit i tag s).
+Lemma sched_do_emit i tag s : sched s (pl_do_emit i tag s).
 Proof.
-  unfold do_emit.
-  set (s1 := pexec (pexec s (LRecv i tag)) LLookup).
+  unfold pl_do_emit.
+  set (s1 := pl_exec (pl_exec s (PlLRecv i tag)) PlLLookup).
   assert (H1 : sched s s1) by (eapply sched_trans; apply sched_exec).
-  assert (H2 : sched s (pexec s1 LSend)) by (eapply sched_trans; [exact H1|apply sched_exec]).
-  destruct (rl s1); auto. eapply sched_trans; [exact H2|apply sched_settle].
+  assert (H2 : sched s (pl_exec s1 PlLSend)) by (eapply sched_trans; [exact H1|apply sched_exec]).
+  destruct (pl_rl s1); auto. eapply sched_trans; [exact H2|apply sched_settle].
 Qed.
 
-Lemma sched_big_step s e : sched s (big_step s e).
+Lemma sched_big_step s e : sched s (pl_big_step s e).
 Proof.
-  destruct e; cbn [big_step].
+  destruct e; cbn [pl_big_step].
   - eapply sched_trans; [|apply sched_settle]. apply sched_fold. apply sched_exec.
-  - destruct (tget s k) as [th|]; [|apply sched_refl].
-    destruct (twid th); [apply sched_do_emit|apply sched_refl].
+  - destruct (pl_tget s k) as [th|]; [|apply sched_refl].
+    destruct (pl_twid th); [apply sched_do_emit|apply sched_refl].
   - apply sched_do_emit.
   - eapply sched_trans; [apply sched_exec|apply sched_settle_all].
   - eapply sched_trans; [apply sched_exec|apply sched_settle].
@@ -828,7 +828,7 @@ Proof.
 Qed.
 
 (* every quiescent history's big-step result is reached by a schedule of the small-step system *)
-Theorem big_refines_small tcp q0 evs : reachable tcp q0 (run_history tcp q0 evs).
+Theorem big_refines_small tcp q0 evs : reachable tcp q0 (pl_run_history tcp q0 evs).
 Proof.
-  unfold reachable, run_history. apply (sched_fold big_step evs sched_big_step).
+  unfold reachable, pl_run_history. apply (sched_fold pl_big_step evs sched_big_step).
 Qed.
